@@ -86,30 +86,30 @@ def optNodeArg? (n : Nat) (s : String) : Option (Option NodeArg) :=
 def flag? (s : String) : Option Bool :=
   if s == "1" then some true else if s == "0" then some false else none
 
-def op? (n : Nat) (s : String) : Option (Op W) :=
+def op? (n : Nat) (s : String) : Option (GraphExt.Op W) :=
   match splitTok s ':' with
   | ["P", a, b, c, d] => do
     let a ← nodeArg? n a
     let b ← nodeArg? n b
     let c ← C06.cutW? pw c
     let d ← flag? d
-    pure (.path a b c d)
+    pure (GraphExt.Op.path a b c d)
   | ["D", a, b, c, d] => do
     let a ← nodeArg? n a
     let b ← optNodeArg? n b
     let c ← C06.cutW? pw c
     let d ← flag? d
-    pure (.dist a b c d)
+    pure (GraphExt.Op.dist a b c d)
   | ["F", a, b, c, d] => do
     let a ← nodeArg? n a
     let b ← optNodeArg? n b
     let c ← C06.cutW? pw c
     let d ← flag? d
-    pure (.fwd a b c d)
-  | ["B", b] => (nodeArg? n b).map .back
+    pure (GraphExt.Op.fwd a b c d)
+  | ["B", b] => (nodeArg? n b).map GraphExt.Op.back
   | _ => none
 
-def showOut (sc : Scene) : Out W → String
+def showOut (sc : Scene) : GraphExt.Out W → String
   | .path b label => showBackT sc b ++ "@" ++ showLabel sw label
   | .dist d => "d=" ++ showLabel sw d
   | .dists l => "l=" ++ joinWith "," (l.map (showLabel sw))
@@ -138,9 +138,9 @@ def ends? (s : String) : Option ((Int × Int) × (Int × Int)) :=
   | some [a, b, c, d] => some ((a, b), (c, d))
   | _ => none
 
-def showBuilt (n : Nat) (nb : NetObj W (Int × Int)) : String :=
+def showBuilt (n : Nat) (nb : GraphExt.NetObj W (Int × Int)) : String :=
   joinWith ";" ((List.range n).map (fun u => if (nb.next u).isEmpty then "e" else joinWith "," ((nb.next u).map toString)))
-    ++ "#" ++ joinWith ";" ((List.range n).map (fun v => match posOf nb v with | some p => s!"{p.1},{p.2}" | none => "-"))
+    ++ "#" ++ joinWith ";" ((List.range n).map (fun v => match GraphExt.posOf nb v with | some p => s!"{p.1},{p.2}" | none => "-"))
     ++ "#" ++ joinWith "," (nb.nodes.map (fun p => toString p.1))
 
 variable [LT W] [DecidableLT W] [Add W] [OfNat W 0]
@@ -153,7 +153,7 @@ def handleW (cmd : String) (args : List String) : String :=
       match geometry? net false pos lines with
       | some sc =>
         let res := (List.range net.n).flatMap (fun s => (List.range net.n).map (fun t =>
-          showBackT sc (shortestPathT net sc.geo s t cut) ++ "@" ++ showLabel sw (shortestDistance net s t cut)))
+          showBackT sc (GraphExt.shortestPathT net sc.geo s t cut) ++ "@" ++ showLabel sw (shortestDistance net s t cut)))
         if res.isEmpty then "_" else "|".intercalate res
       | none => "bad-request"
     | _, _ => "bad-request"
@@ -163,9 +163,9 @@ def handleW (cmd : String) (args : List String) : String :=
       match (splitTok pre ';').mapM (nodeCall? net.n), (splitTok ends ';').mapM ends?, (splitTok post ';').mapM (nodeCall? net.n) with
       | some pre, some ends, some post =>
         if ends.length == net.edges.length then
-          let nb0 : NetObj W (Int × Int) := pre.foldl (fun nb c => addNode nb c.1 c.2) NetObj.empty
-          let nb1 := build nb0 ((net.edges.zip ends).map (fun p => (p.1, p.2.1, p.2.2)))
-          showBuilt net.n (post.foldl (fun nb c => addNode nb c.1 c.2) nb1)
+          let nb0 : GraphExt.NetObj W (Int × Int) := pre.foldl (fun nb c => GraphExt.addNode nb c.1 c.2) GraphExt.NetObj.empty
+          let nb1 := GraphExt.build nb0 ((net.edges.zip ends).map (fun p => (p.1, p.2.1, p.2.2)))
+          showBuilt net.n (post.foldl (fun nb c => GraphExt.addNode nb c.1 c.2) nb1)
         else "bad-request"
       | _, _, _ => "bad-request"
     | none => "bad-request"
@@ -174,7 +174,7 @@ def handleW (cmd : String) (args : List String) : String :=
     | some net, some af =>
       match C06.order? net.n order, geometry? net af pos lines, (splitTok ops ';').mapM (op? pw net.n) with
       | some order, some sc, some ops =>
-        let r := runSession net sc.geo order Sess.start ops
+        let r := GraphExt.runSession net sc.geo order GraphExt.Sess.start ops
         joinWith "|" (r.1.map (showOut sw sc)) ++ "#" ++ showDict sw net.n r.2.dict
       | _, _, _ => "bad-request"
     | _, _ => "bad-request"
